@@ -7,6 +7,7 @@ RUN : each history is replayed on real instances (connect-by-call, by-assignment
 VAL : Trace_Build checks every step against Build!Apply; Trace_Conn checks that the package denotes the design given by the spec's FINAL mapping
       (so anything replaced or disconnected must have left no electrical trace).
 """
+import itertools
 import json
 import random
 from pathlib import Path
@@ -32,6 +33,7 @@ def term_of(port, label, ncid):
             "dict": AnonDict(x=Sig("t"), y=Sig("v2")),
             # a member that is a reference to the OTHER instance's scalar port (which has, or gets, a connection of its own)
             "anonp": Anon(x=Pref(other(inst), "a"), y=Sig("v2")), "dictp": AnonDict(x=Pref(other(inst), "a"), y=Sig("v2")),
+            "prefbit": Slc(Pref(other(inst), pn), I(0)),      # a slice (here: bit 0) of a reference to the other instance's port
             "pref": Pref(other(inst), pn)}[label]
 
 
@@ -93,6 +95,8 @@ def replay(args):
             return {"x": getattr(insts[other(inst)], "a"), "y": ns["v2"]}
         if label == "pref":
             return getattr(insts[other(inst)], pn)
+        if label == "prefbit":
+            return getattr(insts[other(inst)], pn)[0]
         raise ValueError(label)
 
     for seq, o in enumerate(hist, 1):
@@ -150,7 +154,53 @@ def replay(args):
     return events, fe
 
 
+def mult_cases():
+    """instance arrays made by multiplying ONE template instance several times, with re-connections of the arrays in between"""
+    out = []
+    for A0, Z0, A1, Z2, Z1 in itertools.product(["s1", "v2"], ["s2", "w2"], [None, "s2", "w2"], [None, "s1", "v2"], [None, "s1"]):
+        out.append({"mult": True, "A0": A0, "Z0": Z0, "A1": A1, "Z2": Z2, "Z1": Z1})
+    return out
+
+
+def replay_mult(args):
+    tid, c = args
+    from ..hd import h
+    cm = U.mod([U.sig("a", 1, True), U.sig("z", 1, True)])
+    sigs = [U.sig("s1"), U.sig("s2"), U.sig("v2", 2), U.sig("w2", 2)]
+    fin1 = [("a", Sig(c["A1"] or c["A0"])), ("z", Sig(c["Z1"] or c["Z0"]))]
+    fin2 = [("a", Sig(c["A0"])), ("z", Sig(c["Z2"] or c["Z0"]))]
+    D = U.design({"CM": cm, "Top": U.mod(sigs, [U.inst("arr1", "CM", fin1, kind="array", arr=2), U.inst("arr2", "CM", fin2, kind="array", arr=2)])})
+    fe = {"tid": tid, "fam": "C04mult", "D": D, "style": "history", "raised": False, "accepted": [], "P": conn.EMPTY_P, "exc": ""}
+    try:
+        from ..design import Builder
+        skel = json.loads(json.dumps(D))
+        skel["mods"]["Top"]["insts"] = [i for i in skel["mods"]["Top"]["insts"] if i["n"] not in ("arr1", "arr2")]
+        bld = Builder(h, skel, "proc")
+        top = bld.build()
+        ns = top.namespace
+        t = bld.module("CM")(a=ns[c["A0"]], z=ns[c["Z0"]])          # the template instance, never added to the module itself
+        arr1 = 2 * t
+        top.add(arr1, name="arr1")
+        if c["A1"]:
+            arr1.a = ns[c["A1"]]
+        arr2 = 2 * t
+        top.add(arr2, name="arr2")
+        if c["Z2"]:
+            arr2.replace("z", ns[c["Z2"]])
+        if c["Z1"]:
+            arr1.connect("z", ns[c["Z1"]])
+        pkg = h.to_proto(top)
+        fe["P"] = proj_package(pkg, "Top")
+        fe["accepted"] = ["to_proto"]
+    except Exception as ex:
+        fe["raised"] = True
+        fe["exc"] = f"{type(ex).__name__}: {str(ex).strip().splitlines()[-1][:200] if str(ex).strip() else ''}"
+    return [], fe
+
+
 def feats(case):
+    if case.get("mult"):
+        return ["multiplied_arrays"] + [f"{k}_{'set' if case[k] else 'kept'}" for k in ("A1", "Z2", "Z1")]
     f = set()
     seen = {}
     for o in case["hist"]:
@@ -186,10 +236,13 @@ def run(tier, seed, replay_file=None):
         cases += list(uniq.values())
         o.transitions += r.generated
         o.mc_runs.append({"spec": "MC_Build(simulate depth 6)", "behaviours": len(uniq)})
-    out = pool_map(replay, list(enumerate(cases)), chunksize=64)
+    nhist = len(cases)
+    mcases = [] if replay_file else mult_cases()
+    out = pool_map(replay, list(enumerate(cases)), chunksize=64) + pool_map(replay_mult, [(nhist + k, c) for k, c in enumerate(mcases)], chunksize=8)
+    cases = cases + mcases
     traces = [t for t, _ in out]
     finals = [f for _, f in out]
-    files = tlc.split_batches(traces, WORK / "c04", f"tr-{tier}", NPROC)
+    files = tlc.split_batches([t for t in traces if t], WORK / "c04", f"tr-{tier}", NPROC)
     res = tlc.validate_batches("trace/Trace_Build.tla", "trace/Trace_Build.cfg", files, jobs=NPROC, tag="c04val")
     v1 = {}
     for r in res:
@@ -199,6 +252,9 @@ def run(tier, seed, replay_file=None):
             v1[tid] = (ok, clause)
     v2, gen = conn.validate(finals, "c04fin")
     o.transitions += gen
+    for i, t in enumerate(traces):
+        if not t:
+            v1.setdefault(i, (True, ""))          # (the multiplication histories have no step events: only their built design is judged)
     if len(v1) != len(cases) or len(v2) != len(cases):
         raise tlc.TlcError(f"C04: {len(cases)} histories, {len(v1)} step verdicts, {len(v2)} final verdicts")
     o.traces = len(cases)
@@ -222,9 +278,9 @@ def run(tier, seed, replay_file=None):
         elif c2s in ("leaf_table", "observables", "partition"):
             o.violations.append(Violation(clause="final:" + c2s, case=case, features=fs, detail={"P": finals[i]["P"]} if len(o.violations) < 20 else None))
     o.distinct_nontrivial = nt
-    vals = ["s", "bus0", "cat", "pref", "nc", "b", "anon", "dict", "anonp", "dictp"]
-    o.required_cover = ["op_connect", "op_replace", "op_disconnect", "op_read", "final_ok_valid"] + ["replaced_" + v for v in vals] + ["replacing_" + v for v in vals]
+    vals = ["s", "bus0", "cat", "pref", "nc", "b", "anon", "dict", "anonp", "dictp", "prefbit"]
+    o.required_cover = ["op_connect", "op_replace", "op_disconnect", "op_read", "final_ok_valid", "multiplied_arrays"] + ["replaced_" + v for v in vals] + ["replacing_" + v for v in vals]
     rnd = random.Random(seed)
     for i in rnd.sample(range(len(cases)), 2):
-        o.samples.append({"history": cases[i]["hist"], "final": cases[i]["final"], "step_verdict": v1[i], "final_verdict": v2[i]})
+        o.samples.append({"history": cases[i].get("hist", cases[i]), "final": cases[i].get("final", ""), "step_verdict": v1[i], "final_verdict": v2[i]})
     return o
